@@ -99,8 +99,8 @@ func init() {
 	addSpec(&Spec{ID: "C08", Title: "reading does not depend on how the source fragments its reads", Level: "fault_enumeration",
 		Shapes: portfolioMain,
 		Rule: "files = portfolio x 3 codecs x {single-page, multi-page, multi-row-group}, files with page bodies of exactly 2^k bytes and of 1.5 MiB, and per shape 3 (thorough 12) files of the reference writer (page checksums, unknown thrift fields, free level segmentation, mixed codecs); patterns = fixed chunk sizes (quick 1..17 + spread to 4096; thorough every 1..64,127,128,4095,4096), seeded random short reads, " +
-			"data-with-EOF (alone and with chunk 1/7), every k-th call short, and sources that also offer ReadByte/ReadAt/WriteTo; oracle = rows and error equal to the full-read baseline; distinct = (file, pattern); non-trivial = at least one call returned fewer bytes than requested",
-		Require: []string{"short_reads", "pagedata_short_uncompressed", "pagedata_short_snappy", "pagedata_short_gzip", "foreign_file_cases", "cases_with_rich_source"},
+			"data-with-EOF (alone and with chunk 1/7), every k-th call short, sources that also offer ReadByte/ReadAt/WriteTo, and sources whose read position is not 0 when they are handed over (end of file, offset 5); oracle = rows and error equal to the full-read baseline; distinct = (file, pattern); non-trivial = at least one call returned fewer bytes than requested",
+		Require: []string{"short_reads", "pagedata_short_uncompressed", "pagedata_short_snappy", "pagedata_short_gzip", "foreign_file_cases", "cases_with_rich_source", "cases_with_source_not_at_offset_0"},
 	})
 	addSpec(&Spec{ID: "C09", Title: "a failed write to the destination is always reported", Level: "fault_enumeration",
 		Shapes: portfolioMain,
